@@ -92,6 +92,12 @@ func (s *Service) OnSurvey(queryType string, payload []byte) ([]byte, bool) {
 		return nil, false
 	}
 
+	// Check if the SSID is properly constructed (contract and at least one level, as for the
+	// storage survey); the lookup panics on less, with the lock of the subscriptions held
+	if len(target) < 2 {
+		return nil, false
+	}
+
 	logging.LogTarget("query", queryType+" query received", target)
 
 	// Send back the response
